@@ -3,6 +3,7 @@ Line-protocol driver: one JSON request per line on stdin, one JSON answer per li
 Imports only model files (no Mathlib) so that it links as a native executable.
 -/
 import Cte.Model.Json
+import Cte.Model.Cli
 import Cte.Model.Decode
 import Cte.Model.Check
 import Cte.Model.Purge
@@ -601,6 +602,34 @@ def withModel (req : J) (f : Model → J) : J :=
     | .ok m => f m
     | .error e => J.obj [("load_error", J.str e)]
 
+/-- op `cli`: the export tool's automaton on the given argument list; the library's behaviour is what the
+harness observed in-process (`lib_ok`), the JSON stands for itself -/
+def opCli (req : J) : J :=
+  let args : List String := match req.get? "args" with
+    | some (J.arr l) => l.filterMap (fun x => match x with | J.str s => some s | _ => none)
+    | _ => []
+  let libOk := match req.get? "lib_ok" with | some (J.bool b) => b | _ => false
+  let lib : String → Bool → Cli.LibRun := fun _ _ =>
+    { writes := [], result := if libOk then .ok "MODEL" else .error "no project" }
+  let r := Cli.cliMain args lib
+  let out := Cli.stdoutOf r.writes
+  J.obj [("status", J.ofNat r.status),
+         ("stdout", J.str (if out = ["MODEL\n"] then "model-json-newline" else if out = [] then "empty" else "other")),
+         ("use_extra_passed", J.bool ((args.drop 1).dropLast.any (· == "--use-extra")))]
+
+/-- op `thor`: the companion tool's automaton: `thor FILE -o P [-v]*` with P holding `existing` before -/
+def opThor (req : J) : J :=
+  let v := match req.get? "v" with | some (J.num false k 0) => k | _ => 0
+  let libOk := match req.get? "lib_ok" with | some (J.bool b) => b | _ => false
+  let existing : Cli.Fs := match req.get? "existing" with | some (J.str c) => [("P", c)] | _ => []
+  let a : Cli.ThorArgs := { input := "FILE", out := some "P", v := v }
+  let r := Cli.thorMain a (fun _ => if libOk then .ok ("MODEL", "IND") else .error "bad file") (fun _ => true) existing
+  J.obj [("status", J.ofNat r.status),
+         ("file", match r.fs.read "P" with
+            | some c => J.str (if c = "MODEL" then "model-json" else "other")
+            | none => J.null),
+         ("stdout_writes", J.ofNat (Cli.stdoutOf r.writes).length)]
+
 def handle (line : String) : String :=
   match J.parse line with
   | none => "{\"error\":\"bad json\"}"
@@ -632,6 +661,8 @@ def handle (line : String) : String :=
       | some (J.str "fshobst") => opFshobst req
       | some (J.str "raypoly") => opRayPoly req
       | some (J.str "noop") => J.obj []
+      | some (J.str "cli") => opCli req
+      | some (J.str "thor") => opThor req
       | some (J.str "load") => withModel req (fun _ => J.obj [("ok", J.bool true)])
       | _ => J.obj [("error", J.str "unknown op")]
     match ans with
